@@ -242,7 +242,9 @@ def oracle_c02(case):
                 exp_cmp = [(t, a, s_) for (t, a, s_, _) in exp]
                 got_cmp = [(t, a, s_) for (t, a, s_, _) in got]
                 if exp_cmp != got_cmp:
-                    cls = "C02-stale-after-hook" if hooks_now else None
+                    leaked = any(p.get("params") and _entered(prev, st, pid) for pid, p in story["passages"].items()) \
+                        if prev is not st else False
+                    cls = "C02-stale-after-hook" if hooks_now else ("C02-leaked-scope" if leaked else None)
                     out.append(fail(i, f"offered top-level choices {got_cmp} but enabled ones are {exp_cmp}", cls))
         prev = st
     return out
@@ -260,3 +262,127 @@ def _has_jump(p):
                 return True
         return False
     return walk(p.get("content", []))
+
+
+# ------------------------------------------------------------------------------------ C07
+
+import ast as _ast
+
+
+class BindError(Exception):
+    pass
+
+
+def py_bind(params, args_src, env):
+    """Python's call rule (with Bardic's call-time defaults that may use earlier parameters),
+    written independently of the engine.  Raises BindError(kind) or whatever the argument code raises."""
+    call = _ast.parse(f"__f__({args_src})", mode="eval").body
+    g = {"__builtins__": SAFE_BUILTINS}
+    pos = [eval(compile(_ast.Expression(a), "<arg>", "eval"), g, env) for a in call.args]
+    kws = {}
+    for k in call.keywords:
+        kws[k.arg] = eval(compile(_ast.Expression(k.value), "<arg>", "eval"), g, env)
+    names = [p["name"] for p in params]
+    if len(pos) > len(names):
+        raise BindError("surplus")
+    for k in kws:
+        if k not in names:
+            raise BindError("unknown")
+    bound = {}
+    for i, p in enumerate(params):
+        n = p["name"]
+        if i < len(pos):
+            if n in kws:
+                raise BindError("duplicate")
+            bound[n] = pos[i]
+        elif n in kws:
+            bound[n] = kws[n]
+        elif p["default"] is not None:
+            bound[n] = eval(p["default"], g, {**env, **bound})
+        else:
+            raise BindError("missing")
+    return bound
+
+
+def _has_probe(story, pid):
+    p = story["passages"].get(pid, {})
+    return any(c.get("type") == "python_statement" and c.get("code", "").startswith(f"lk_{pid} =") for c in p.get("execute", []))
+
+
+def _entered(prev, st, pid):
+    a, b = prev["vars"].get("n_" + pid, 0), st["vars"].get("n_" + pid, 0)
+    return isinstance(a, int) and isinstance(b, int) and b == a + 1
+
+
+def oracle_c07(case):
+    real = case["real"]
+    if real.get("status") != "ok":
+        return []
+    story = case["story"]
+    out = []
+    all_params = set()
+    for p in story["passages"].values():
+        all_params |= {q["name"] for q in p.get("params", [])}
+    prev = real["init"]
+    globals_at_start = set(prev["vars"].keys())
+    for i, (op, step) in enumerate(zip(case["ops"], real["steps"])):
+        st, resp, name = step["state"], step["resp"], op["op"]
+        if st["nscopes"] != 0:
+            out.append(fail(i, f"{st['nscopes']} parameter scope(s) left over after {name}"))
+        # parameters never appear in the global variables
+        for q in all_params:
+            if q in st["vars"] and q not in globals_at_start:
+                out.append(fail(i, f"parameter name {q} appeared among the global variables"))
+        target, args_src, is_block = None, None, False
+        if name == "choose" and prev.get("out") and 0 <= op["i"] < len(prev["out"]["choices"]):
+            ch = prev["out"]["choices"][op["i"]]
+            if ch["target"] != "@join":
+                target, args_src, is_block = ch["target"], ch["args"], ch["block"]
+        # a compiled story never fails at run time for a missing/surplus/unknown/duplicate argument
+        if name == "choose" and is_raise(resp, "ValueError") and target is not None:
+            msg = resp.get("msg", "")
+            if "Required parameter" in msg or "provided multiple times" in msg:
+                out.append(fail(i, "argument-binding failure at run time: " + msg[:120],
+                                "C07-unvalidated-block-call" if is_block else None))
+        if target in story["passages"] and args_src is not None:
+            tp = story["passages"][target]
+            params = tp.get("params", [])
+            if params and _has_probe(story, target) and _entered(prev, st, target):
+                try:
+                    exp = py_bind(params, args_src, copy.deepcopy(prev["vars"]))
+                except BindError as be:
+                    exp = ("binderr", str(be))
+                except Exception:  # noqa  (argument code itself failed: ValueError path of the engine)
+                    exp = None
+                got = st["vars"].get("lk_" + target)
+                if isinstance(exp, dict):
+                    try:
+                        import real_play
+                        exp_c = real_play.enc(exp)
+                    except Exception:  # noqa
+                        exp_c = None
+                    if exp_c is not None and got != exp_c:
+                        import re as _re
+                        cls = "C07-arg-named-param" if any(_re.fullmatch(r"arg_\d+", q["name"]) for q in params) else None
+                        out.append(fail(i, f"parameters of {target}({args_src}) bound as {got}, Python's call rule gives {exp_c}", cls))
+                    # the passage's own render directive sees the parameters (shadowing same-named globals)
+                    if exp_c is not None and "out" in resp:
+                        for dct in resp["out"]["rdirs"]:
+                            if dct.get("name") == "pr_" + target and dct.get("mode") == "evaluated":
+                                want = {f"arg_{j}": exp_c[q["name"]] for j, q in enumerate(params)}
+                                if dct.get("data") != want:
+                                    out.append(fail(i, f"render directive of {target} saw {dct.get('data')}, parameters are {exp_c}"))
+                elif isinstance(exp, tuple):
+                    out.append(fail(i, f"call {target}({args_src}) violates the call rule ({exp[1]}) but was accepted and bound {got}",
+                                    "C07-unvalidated-block-call" if is_block else None))
+        # passages without parameters see no scope (nothing lingers from an earlier passage of the chain)
+        if name in NAV_OPS:
+            entered_param = [pid for pid, p in story["passages"].items() if p.get("params") and _entered(prev, st, pid)]
+            for pid, p in story["passages"].items():
+                if not p.get("params") and _has_probe(story, pid) and _entered(prev, st, pid):
+                    got = st["vars"].get("lk_" + pid)
+                    if got not in ({}, None):
+                        out.append(fail(i, f"passage {pid} has no parameters but saw the scope {got}",
+                                        "C07-block-jump-scope" if entered_param else None))
+        prev = st
+    return out
